@@ -115,14 +115,15 @@ pub fn run_case(c: &Value) -> Result<(), String> {
         }
     }
     let chunks = c["chunks"].as_array().ok_or("chunks")?;
-    let total: u64 = zp
-        + chunks
+    let total: u64 = zp.saturating_add(
+        chunks
             .iter()
             .map(|ch| {
                 ch["skip_zeros"].as_u64().unwrap_or(0)
                     + (ch["word"].as_str().unwrap_or("").len() / 2) as u64 * ch["count"].as_u64().unwrap_or(0)
             })
-            .sum::<u64>();
+            .sum::<u64>(),
+    );
     for ch in chunks {
         if let Some(n) = ch["skip_zeros"].as_u64() {
             // in-place zero skip (hook H1); only valid when the last 7 bytes were zero
